@@ -30,7 +30,7 @@ def strand_cases(draw, tier):
     kmax = 5 if tier == "quick" else 6
     k = draw(st.sampled_from([2, 3, 3, 4, 4, 5] + ([6] if tier != "quick" else [])))
     if draw(st.booleans()):
-        spec = {"local": draw(gens.local_filter_cfgs(k, decidable=True))}
+        spec = {"local": gens.relax_until_satisfiable(draw(gens.local_filter_cfgs(k, decidable=True)))}
     else:
         spec = {"user": draw(gens.user_filter_cfgs(k))}
     max_len = 48 if tier == "quick" else 200
